@@ -199,3 +199,9 @@ package rdb
 //@ before DBI.ExecuteBatch#0 assert[locked-write] held(rdb.writeMutex) == 2
 //@ loop 0 invariant dbWrites == old(dbWrites) && held(rdb.writeMutex) == 2
 //@ loop 1 invariant dbWrites == old(dbWrites) && held(rdb.writeMutex) == 2 && len(dbValues) == len(uniqueKeys) && 0 <= idx && idx <= len(uniqueKeys)
+
+// ---- C05 / C02: the per-reader lookup context --------------------------------------------------------------
+// A new context is a fresh object with a fresh (empty) cache: nothing looked up by an earlier reader, possibly
+// in an earlier generation of the database, is visible through it.
+//@ func NewContext
+//@ ensures[fresh] result != nil && fresh(result) && fresh(result.cache)
